@@ -154,13 +154,11 @@ def install():
     prf_cls = get_prf_implementation("HmacPRF")
     if not _INSTALLED:
         pm = sys.modules[prf_cls.__module__]
-        if not hasattr(pm, "hmac"):
-            raise MachineryError("recorder out of date: %s has no attribute hmac" % pm.__name__)
-        pm.hmac = _HmacProxy()
+        if hasattr(pm, "hmac"):          # (a module that reaches HMAC some other way is only invisible to Layer B)
+            pm.hmac = _HmacProxy()
         hm = sys.modules[get_hash_implementation.__module__]
-        if not hasattr(hm, "hashlib"):
-            raise MachineryError("recorder out of date: %s has no attribute hashlib" % hm.__name__)
-        hm.hashlib = _HashlibProxy()
+        if hasattr(hm, "hashlib"):
+            hm.hashlib = _HashlibProxy()
         # get_hash_implementation caches partials of the wrapper class: nothing bound to hashlib yet
         _INSTALLED["ok"] = True
     return prf_cls, get_hash_implementation
@@ -193,6 +191,53 @@ def _hash_core_json():
 # judged calls
 # ---------------------------------------------------------------------------
 
+def _oracle_prf(dig, k, m, n):
+    """standard-library HMAC values every P_hash-style chaining of (k, m) up to n bytes can need: the chain
+    a_0 = m, a_i = HMAC(k, a_{i-1}) and HMAC(k, a_i + m). Independent of how the code under test computes."""
+    out = []
+    try:
+        h = real_hmac.new(k, b"", dig).digest_size
+    except Exception:
+        return out
+    blocks = (max(n, 1) + h - 1) // h + 2
+    a = bytes(m)
+    for _ in range(blocks):
+        nxt = real_hmac.new(k, a, dig).digest()
+        out.append({"dig": dig, "k": b2s(k), "inp": b2s(a), "res": b2s(nxt), "used": True, "ref": b2s(nxt)})
+        blk = real_hmac.new(k, nxt + bytes(m), dig).digest()
+        out.append({"dig": dig, "k": b2s(k), "inp": b2s(nxt + bytes(m)), "res": b2s(blk), "used": True, "ref": b2s(blk)})
+        a = nxt
+    return out
+
+
+def _oracle_hash(name, m, n):
+    """standard-library hash values of m followed by a counter, for the counters 0..blocks+1 in every plausible byte encoding
+    (the specification picks the documented one), or the XOF output of n bytes."""
+    out = []
+    try:
+        h0 = real_hashlib.new(name)
+    except Exception:
+        return out
+    if h0.digest_size == 0:          # XOF
+        r = real_hashlib.new(name, bytes(m)).digest(n)
+        return [{"name": name, "inp": b2s(m), "n": n, "res": b2s(r), "used": True, "ref": b2s(r)}]
+    blocks = (max(n, 1) + h0.digest_size - 1) // h0.digest_size + 2
+    seen = set()
+    for i in range(0, blocks + 1):
+        encs = {i.to_bytes(max(1, (i.bit_length() + 7) // 8), "big")}
+        for w in (1, 2, 4, 8):
+            if i < 256 ** w:
+                encs.add(i.to_bytes(w, "big"))
+        for c in encs:
+            for inp in (bytes(m) + c, c + bytes(m)):
+                if inp in seen:
+                    continue
+                seen.add(inp)
+                r = real_hashlib.new(name, inp).digest()
+                out.append({"name": name, "inp": b2s(inp), "n": -1, "res": b2s(r), "used": True, "ref": b2s(r)})
+    return out
+
+
 def _bytes_or_bad(out, res):
     if out == "ok" and not isinstance(res, (bytes, bytearray)):
         return "badtype:" + type(res).__name__, None
@@ -201,7 +246,7 @@ def _bytes_or_bad(out, res):
 
 def call_prf(decl, k, m):
     prf_cls, _ = install()
-    e = {"op": "prf", "decl": decl, "k": b2s(k), "m": b2s(m), "out": "", "res": [], "again": [], "core": []}
+    e = {"op": "prf", "decl": decl, "k": b2s(k), "m": b2s(m), "out": "", "res": [], "again": [], "core": [], "oracle": []}
     try:
         f = prf_cls(output_length=decl["out"], key_length=decl["key"], message_length=decl["msg"], hash_func_name=decl["dig"])
     except Exception as ex:
@@ -220,6 +265,7 @@ def call_prf(decl, k, m):
     e["out"] = out
     e["res"] = b2s(res or b"")
     e["core"] = _hmac_core_json()
+    e["oracle"] = _oracle_prf(decl["dig"], k, m, len(res) if out == "ok" and res is not None else 0) if out == "ok" else []
     if out == "ok":
         # determinism: the same instance again, and a fresh instance
         for g in (f, prf_cls(output_length=decl["out"], key_length=decl["key"], message_length=decl["msg"], hash_func_name=decl["dig"])):
@@ -233,7 +279,7 @@ def call_prf(decl, k, m):
 
 def call_hash(decl, m):
     _, get_hash = install()
-    e = {"op": "hash", "decl": decl, "m": b2s(m), "out": "", "res": [], "again": [], "core": []}
+    e = {"op": "hash", "decl": decl, "m": b2s(m), "out": "", "res": [], "again": [], "core": [], "oracle": []}
     try:
         f = get_hash(decl["name"])(output_length=decl["out"])
     except Exception as ex:
@@ -252,6 +298,7 @@ def call_hash(decl, m):
     e["out"] = out
     e["res"] = b2s(res or b"")
     e["core"] = _hash_core_json()
+    e["oracle"] = _oracle_hash(decl["name"], m, len(res)) if out == "ok" and res is not None else []
     if out == "ok":
         for g in (f, get_hash(decl["name"])(output_length=decl["out"])):
             try:
